@@ -1,0 +1,296 @@
+//go:build verif
+
+package file
+
+import (
+	"bufio"
+	"encoding/gob"
+	"io"
+	"os"
+	"path/filepath"
+
+	"github.com/inbucket/inbucket/v3/pkg/extension"
+	"github.com/inbucket/inbucket/v3/pkg/extension/event"
+	"github.com/inbucket/inbucket/v3/pkg/storage"
+	"github.com/inbucket/inbucket/v3/pkg/stringutil"
+)
+
+var _ = stringutil.HashMailboxName
+
+var _ extension.Host
+var _ = filepath.Dir
+var _ bufio.Writer
+var _ gob.Encoder
+var _ io.Writer
+var _ os.File
+var _ event.MessageMetadata
+var _ storage.Store
+
+// ---------------------------------------------------------------------------------------------
+// Ghost file system (owned by the assumed contracts of os / bufio / gob) and the decoded content of
+// a complete index file: how many messages it lists, their ids and seen flags, in order.
+func ghost_exists(p string) bool          { panic("ghost") }
+func ghost_complete(p string) bool        { panic("ghost") }
+func ghost_items(p string) int            { panic("ghost") }
+func ghost_idxIDs(p string) vcSeq[string] { panic("ghost") }
+func ghost_idxSeen(p string) vcSeq[bool]  { panic("ghost") }
+
+func ghost_fpath(f *os.File) string        { panic("ghost") }
+func ghost_wfile(w *bufio.Writer) *os.File { panic("ghost") }
+func ghost_wcount(w *bufio.Writer) int     { panic("ghost") }
+func ghost_encw(e *gob.Encoder) io.Writer  { panic("ghost") }
+
+func ghost_nemitted(eb *extension.AsyncEventBroker[event.MessageMetadata]) int { panic("ghost") }
+func ghost_emitted(eb *extension.AsyncEventBroker[event.MessageMetadata]) vcSeq[*event.MessageMetadata] {
+	panic("ghost")
+}
+
+// A complete index holds the mailbox name followed by one record per message.
+//@ pred spec_idxN(p string) int = vcIte(ghost_exists(p), ghost_items(p) - 1, 0)
+
+// R1 (crash invariant of every index update): the index is absent or it is a complete stream.
+//@ pred spec_idxSafe(p string) bool = !ghost_exists(p) || ghost_complete(p)
+
+// The loaded list: every entry exists and points back to this mailbox.
+//@ pred spec_listOK(mb *mbox) bool = mb != nil && mb.store != nil && mb.store.extHost != nil && mb.store.extHost.Events != nil &&
+//@     mb.indexPath != mb.path && mb.indexPath != filepath.Dir(mb.path) && mb.indexPath != filepath.Dir(filepath.Dir(mb.path)) &&
+//@     forall a int :: { vcSeqAt(vcElemsOf(mb.messages), a) } vcOff(mb.messages) <= a && a < vcOff(mb.messages)+len(mb.messages) ==>
+//@        vcSeqAt(vcElemsOf(mb.messages), a) != nil && vcSeqAt(vcElemsOf(mb.messages), a).mailbox == mb
+
+// The loaded list is what the index file holds (ids and seen flags, in order).
+//@ pred spec_loaded(mb *mbox) bool = mb.indexLoaded && spec_listOK(mb) && len(mb.messages) == spec_idxN(mb.indexPath) &&
+//@     (forall a int :: { vcSeqAt(vcElemsOf(mb.messages), a) } vcOff(mb.messages) <= a && a < vcOff(mb.messages)+len(mb.messages) ==>
+//@        vcSeqAt(vcElemsOf(mb.messages), a).Fid == vcSeqAt(ghost_idxIDs(mb.indexPath), a-vcOff(mb.messages)) &&
+//@        vcSeqAt(vcElemsOf(mb.messages), a).Fseen == vcSeqAt(ghost_idxSeen(mb.indexPath), a-vcOff(mb.messages))) &&
+//@     (forall i int :: { vcSeqAt(ghost_idxIDs(mb.indexPath), i) } 0 <= i && i < len(mb.messages) ==>
+//@        vcSeqAt(ghost_idxIDs(mb.indexPath), i) == vcSeqAt(vcElemsOf(mb.messages), vcOff(mb.messages)+i).Fid)
+
+// Object invariant of a mailbox handle: once the index is loaded the list is what the file holds.
+//@ pred spec_mbInv(mb *mbox) bool = mb != nil && mb.store != nil && (mb.indexLoaded ==> spec_loaded(mb))
+
+// readIndex: ASSUMED (gob round trip: the k-th decoded record carries the exported fields of the k-th
+// encoded message).  A missing index is an empty mailbox.
+//@ func (*mbox).readIndex
+//@   trusted
+//@   requires mb.store != nil && !mb.indexLoaded
+//@   modifies mb.messages, mb.indexLoaded, mb.name
+//@   ensures ret != nil ==> !mb.indexLoaded
+//@   ensures ret == nil ==> spec_loaded(mb) && (vcFresh(mb.messages) || len(mb.messages) == 0)
+//@   ensures ret == nil ==> forall i int :: { mb.messages[i] } 0 <= i && i < len(mb.messages) ==> vcFresh(mb.messages[i])
+
+// Getters.
+//@ func (*Message).ID
+//@   ensures ret == m.Fid
+//@   serves C07
+//@ func (*Message).Seen
+//@   ensures ret == m.Fseen
+//@   serves C07
+//@ func (*Message).Size
+//@   ensures ret == m.Fsize
+//@   serves C07 C02
+//@ func (*Message).Subject
+//@   ensures ret == m.Fsubject
+//@   serves C07
+//@ func (*Message).Mailbox
+//@   requires m.mailbox != nil
+//@   ensures ret == m.mailbox.name
+//@   serves C07
+
+// getMessages: the loaded list, in order.
+//@ func (*mbox).getMessages
+//@   requires spec_mbInv(mb)
+//@   modifies mb.messages, mb.indexLoaded, mb.name
+//@   ensures ret1 == nil ==> spec_loaded(mb) && len(ret0) == len(mb.messages) &&
+//@      forall i int :: { ret0[i] } 0 <= i && i < len(ret0) ==> ret0[i] != nil && ret0[i].(*Message) == mb.messages[i]
+//@   loop 1: invariant 0 <= ridx && ridx <= len(mb.messages) && len(messages) == len(mb.messages) && vcFresh(messages) && spec_loaded(mb)
+//@   loop 1: invariant forall i int :: { messages[i] } 0 <= i && i < ridx ==> messages[i] != nil && messages[i].(*Message) == mb.messages[i]
+//@   loop 1: decreases len(mb.messages) - ridx
+//@   serves C07 C10
+
+// getMessage: the first entry with that id ("latest": the last entry); ErrNotExist otherwise.
+//@ func (*mbox).getMessage
+//@   requires spec_mbInv(mb)
+//@   modifies mb.messages, mb.indexLoaded, mb.name
+//@   ensures[xor] (ret0 != nil) != (ret1 != nil)
+//@   ensures[found] ret1 == nil && id != "latest" ==> ret0.(*Message) != nil && ret0.(*Message).Fid == id && ret0.(*Message).mailbox == mb
+//@   ensures[latest] ret1 == nil && id == "latest" && len(mb.messages) > 0 ==> ret0.(*Message) == mb.messages[len(mb.messages)-1]
+//@   ensures[notExist] mb.indexLoaded && (forall i int :: { mb.messages[i] } 0 <= i && i < len(mb.messages) ==> mb.messages[i].Fid != id) && !(id == "latest" && len(mb.messages) > 0) ==> ret1 == storage.ErrNotExist
+//@   ensures[onlyNotExist] mb.indexLoaded && ret1 != nil ==> ret1 == storage.ErrNotExist
+//@   ensures spec_mbInv(mb)
+//@   loop 1: invariant 0 <= ridx && ridx <= len(mb.messages) && spec_loaded(mb)
+//@   loop 1: invariant forall i int :: { mb.messages[i] } 0 <= i && i < ridx ==> mb.messages[i].Fid != id
+//@   loop 1: decreases len(mb.messages) - ridx
+//@   serves C07 C10 C14
+
+// rawPath: "<mailbox dir>/<id>.raw" — never the index file or its temporary (assumed: ids are
+// timestamps followed by a counter, the index is called index.gob).
+//@ func (*Message).rawPath
+//@   requires m.mailbox != nil
+//@   ensures[assumedNotTheIndex] ret != m.mailbox.indexPath && ret != m.mailbox.indexPath + ".tmp" && ret != m.mailbox.path
+//@   serves C11
+//@ func (*mbox).createDir
+//@   inline
+//@ func (*mbox).removeDir
+//@   inline
+
+//@ func removeDirIfEmpty
+//@   modifies ghost_exists(path), ghost_complete(path), ghost_items(path)
+//@   serves C11
+
+// writeIndex persists the loaded list (or removes the mailbox directory when the list is empty).
+// Crash invariant R1: at every file-system step the index is absent or complete.
+//@ func (*mbox).writeIndex
+//@   requires spec_listOK(mb)
+//@   modifies ghost_exists(mb.path), ghost_exists(mb.indexPath), ghost_complete(mb.indexPath), ghost_items(mb.indexPath),
+//@      ghost_exists(mb.indexPath + ".tmp"), ghost_complete(mb.indexPath + ".tmp"), ghost_items(mb.indexPath + ".tmp"),
+//@      ghost_exists(filepath.Dir(mb.path)), ghost_complete(filepath.Dir(mb.path)), ghost_items(filepath.Dir(mb.path)),
+//@      ghost_exists(filepath.Dir(filepath.Dir(mb.path))), ghost_complete(filepath.Dir(filepath.Dir(mb.path))), ghost_items(filepath.Dir(filepath.Dir(mb.path))),
+//@      ghost_idxIDs(mb.indexPath), ghost_idxSeen(mb.indexPath)
+//@   crashinv[indexReadable] spec_idxSafe(mb.indexPath) || !old(spec_idxSafe(mb.indexPath))
+//@   ensures[stillSafe C11] spec_idxSafe(mb.indexPath) || !old(spec_idxSafe(mb.indexPath))
+//@   ensures[written] ret == nil && len(mb.messages) > 0 ==> ghost_exists(mb.indexPath) && ghost_complete(mb.indexPath) && ghost_items(mb.indexPath) == len(mb.messages) + 1
+//@   ensures[assumedGobRoundTrip] ret == nil && len(mb.messages) > 0 ==> forall a int :: { vcSeqAt(vcElemsOf(mb.messages), a) } vcOff(mb.messages) <= a && a < vcOff(mb.messages)+len(mb.messages) ==>
+//@      vcSeqAt(ghost_idxIDs(mb.indexPath), a-vcOff(mb.messages)) == vcSeqAt(vcElemsOf(mb.messages), a).Fid &&
+//@      vcSeqAt(ghost_idxSeen(mb.indexPath), a-vcOff(mb.messages)) == vcSeqAt(vcElemsOf(mb.messages), a).Fseen
+//@   ensures[assumedGobRoundTrip2] ret == nil && len(mb.messages) > 0 ==> forall i int :: { vcSeqAt(ghost_idxIDs(mb.indexPath), i) } 0 <= i && i < len(mb.messages) ==>
+//@      vcSeqAt(ghost_idxIDs(mb.indexPath), i) == vcSeqAt(vcElemsOf(mb.messages), vcOff(mb.messages)+i).Fid
+//@   ensures[assumedRemoveAllRemovesIndex] ret == nil && len(mb.messages) == 0 ==> !ghost_exists(mb.indexPath)
+//@   loop 1: invariant 0 <= ridx && ridx <= len(mb.messages) && writer != nil && file != nil && enc != nil && spec_listOK(mb)
+//@   loop 1: invariant ghost_wcount(writer) == 1 + ridx && ghost_wfile(writer) == file && ghost_fpath(file) == tmpPath && tmpPath == mb.indexPath + ".tmp" && ghost_encw(enc).(*bufio.Writer) == writer && ghost_exists(tmpPath)
+//@   loop 1: decreases len(mb.messages) - ridx
+//@   serves C11 C10 C07
+
+// removeMessage: removes the first entry with that id from the index (the entries after it move up
+// by one, nothing else changes), emits one deleted event for it; ErrNotExist if there is none.
+// Stated over the index file's content before and after, so it holds across a restart (C10).
+//@ pred spec_noID(p string, id string, n int) bool = forall i int :: { vcSeqAt(ghost_idxIDs(p), i) } 0 <= i && i < n ==> vcSeqAt(ghost_idxIDs(p), i) != id
+
+//@ func (*mbox).removeMessage
+//@   requires spec_mbInv(mb) && spec_listOK(mb)
+//@   modifies mb.messages, elems(mb.messages), mb.indexLoaded, mb.name, allof(ghost_exists), allof(ghost_complete), allof(ghost_items), allof(ghost_idxIDs), allof(ghost_idxSeen), ghost_nemitted(&mb.store.extHost.Events.AfterMessageDeleted), ghost_emitted(&mb.store.extHost.Events.AfterMessageDeleted)
+//@   ensures[stillSafe C11] spec_idxSafe(mb.indexPath) || !old(spec_idxSafe(mb.indexPath))
+//@   ensures[handleOK] mb.indexLoaded ==> spec_listOK(mb)
+//@   ensures[consistent] ret == nil ==> spec_mbInv(mb)
+//@   ensures[shrinks] old(mb.indexLoaded) && old(len(mb.messages)) > 0 && id == old(mb.messages[0].Fid) ==> len(mb.messages) == old(len(mb.messages)) - 1
+//@   crashinv[indexReadable] spec_idxSafe(mb.indexPath) || !old(spec_idxSafe(mb.indexPath))
+//@   ensures[notExist] mb.indexLoaded && old(spec_noID(mb.indexPath, id, spec_idxN(mb.indexPath))) ==> ret == storage.ErrNotExist
+//@   ensures[removedCount C07 C10] ret == nil && len(mb.messages) > 0 ==> spec_idxN(mb.indexPath) == old(spec_idxN(mb.indexPath)) - 1
+//@   ensures[removedWasThere C07 C10] ret == nil ==> !old(spec_noID(mb.indexPath, id, spec_idxN(mb.indexPath)))
+//@   ensures[othersKeepOrder C07 C10] ret == nil && len(mb.messages) > 0 ==> forall i int :: { vcSeqAt(ghost_idxIDs(mb.indexPath), i) } 0 <= i && i < spec_idxN(mb.indexPath) ==>
+//@      (old(spec_noID(mb.indexPath, id, i+1)) ==> vcSeqAt(ghost_idxIDs(mb.indexPath), i) == old(vcSeqAt(ghost_idxIDs(mb.indexPath), i))) &&
+//@      (!old(spec_noID(mb.indexPath, id, i+1)) ==> vcSeqAt(ghost_idxIDs(mb.indexPath), i) == old(vcSeqAt(ghost_idxIDs(mb.indexPath), i+1)))
+//@   ensures[oneEvent C16] ret == nil ==> ghost_nemitted(&mb.store.extHost.Events.AfterMessageDeleted) == old(ghost_nemitted(&mb.store.extHost.Events.AfterMessageDeleted)) + 1 &&
+//@      vcSeqAt(ghost_emitted(&mb.store.extHost.Events.AfterMessageDeleted), old(ghost_nemitted(&mb.store.extHost.Events.AfterMessageDeleted))).ID == id
+//@   loop 1: invariant 0 <= ridx && ridx <= len(mb.messages) && spec_loaded(mb) && msg == nil
+//@   loop 1: invariant forall i int :: { mb.messages[i] } 0 <= i && i < ridx ==> mb.messages[i].Fid != id
+//@   loop 1: invariant ghost_nemitted(&mb.store.extHost.Events.AfterMessageDeleted) == old(ghost_nemitted(&mb.store.extHost.Events.AfterMessageDeleted))
+//@   loop 1: decreases len(mb.messages) - ridx
+//@   serves C07 C10 C11 C16
+
+// The index file of a mailbox: a function of the store's mail path and the mailbox name only.
+//@ pred spec_indexPath(fs *Store, mailbox string) string = filepath.Join(filepath.Join(fs.mailPath, stringutil.HashMailboxName(mailbox)[0:3], stringutil.HashMailboxName(mailbox)[0:6], stringutil.HashMailboxName(mailbox)), indexFileName)
+
+// A mailbox handle is always built from scratch: nothing is cached between operations, so every
+// operation works from the index file alone (C10: a restart changes nothing).
+//@ func (*Store).mbox
+//@   requires fs.extHost != nil && fs.extHost.Events != nil
+//@   ensures ret != nil && vcFresh(ret) && ret.RWMutex != nil && ret.store == fs && ret.name == mailbox && !ret.indexLoaded && len(ret.messages) == 0
+//@   ensures[assumedPathsDistinct] spec_listOK(ret)
+//@   ensures[deterministicPaths C10] ret.indexPath == spec_indexPath(fs, mailbox)
+//@   serves C10 C07
+
+//@ func (*Store).mboxFromHash
+//@   requires fs.extHost != nil && fs.extHost.Events != nil && len(hash) >= 6
+//@   ensures ret != nil && vcFresh(ret) && ret.RWMutex != nil && ret.store == fs && !ret.indexLoaded && len(ret.messages) == 0
+//@   ensures[assumedPathsDistinct] spec_listOK(ret)
+//@   serves C10 C07
+
+//@ pred spec_storeOK(fs *Store) bool = fs != nil && fs.extHost != nil && fs.extHost.Events != nil
+
+// purge: the mailbox has no index afterwards.
+//@ func (*mbox).purge
+//@   requires spec_listOK(mb)
+//@   modifies *
+//@   crashinv[indexReadable] spec_idxSafe(mb.indexPath) || !old(spec_idxSafe(mb.indexPath))
+//@   ensures ret == nil ==> spec_idxN(mb.indexPath) == 0
+//@   serves C07 C11
+
+//@ func (*Store).GetMessage
+//@   requires spec_storeOK(fs)
+//@   modifies *
+//@   ensures[xor] (ret0 != nil) != (ret1 != nil)
+//@   serves C07 C14
+//@ func (*Store).GetMessages
+//@   requires spec_storeOK(fs)
+//@   modifies *
+//@   ensures ret1 == nil ==> forall i int :: { ret0[i] } 0 <= i && i < len(ret0) ==> ret0[i] != nil
+//@   serves C07 C12 C13
+//@ func (*Store).RemoveMessage
+//@   requires spec_storeOK(fs)
+//@   modifies *
+//@   serves C07
+//@ func (*Store).PurgeMessages
+//@   requires spec_storeOK(fs)
+//@   modifies *
+//@   loop 1: invariant 0 <= ridx && ridx <= len(mb.messages) && spec_loaded(mb) && mb != nil && mb.RWMutex != nil
+//@   loop 1: invariant ghost_nemitted(&fs.extHost.Events.AfterMessageDeleted) == old(ghost_nemitted(&fs.extHost.Events.AfterMessageDeleted)) + ridx
+//@   loop 1: after[oneEventEach C16] ghost_nemitted(&fs.extHost.Events.AfterMessageDeleted) == old(ghost_nemitted(&fs.extHost.Events.AfterMessageDeleted)) + len(mb.messages)
+//@   serves C07 C16
+
+// MarkSeen: a message that does not exist is ErrNotExist (and nothing is rewritten).
+//@ func (*Store).MarkSeen
+//@   requires spec_storeOK(fs)
+//@   modifies *
+//@   crashinv[indexReadable] true
+//@   ensures[notExist] ret == nil ==> !old(spec_noID(spec_indexPath(fs, mailbox), id, spec_idxN(spec_indexPath(fs, mailbox))))
+//@   loop 1: invariant 0 <= ridx && ridx <= len(mb.messages) && spec_loaded(mb) && mb != nil && mb.RWMutex != nil
+//@   loop 1: invariant forall i int :: { vcSeqAt(ghost_idxIDs(mb.indexPath), i) } 0 <= i && i < ridx ==> vcSeqAt(ghost_idxIDs(mb.indexPath), i) != id
+//@   loop 1: decreases len(mb.messages) - ridx
+//@   serves C07
+
+// newMessage: a fresh record for this mailbox; with a cap the list is first cut to below the cap
+// (oldest entries first: always entry 0).
+//@ func generateID
+//@   trusted
+// ASSUMED: the cap loop ignores I/O errors of removeMessage, after which the handle is not known to be
+// consistent with the disk; without I/O faults it removes entry 0 until the list is below the cap.
+//@ func (*mbox).newMessage
+//@   trusted
+//@   requires spec_mbInv(mb) && spec_listOK(mb)
+//@   modifies mb.messages, elems(mb.messages), mb.indexLoaded, mb.name, allof(ghost_exists), allof(ghost_complete), allof(ghost_items), allof(ghost_idxIDs), allof(ghost_idxSeen), ghost_nemitted(&mb.store.extHost.Events.AfterMessageDeleted), ghost_emitted(&mb.store.extHost.Events.AfterMessageDeleted)
+//@   ensures[stillSafe C11] spec_idxSafe(mb.indexPath) || !old(spec_idxSafe(mb.indexPath))
+//@   crashinv[indexReadable] spec_idxSafe(mb.indexPath) || !old(spec_idxSafe(mb.indexPath))
+//@   ensures ret1 == nil ==> ret0 != nil && vcFresh(ret0) && ret0.mailbox == mb && mb.indexLoaded && spec_listOK(mb)
+//@   ensures[belowCap C08] ret1 == nil && mb.store.messageCap > 0 ==> len(mb.messages) < mb.store.messageCap
+//@   ensures[noCapUntouched C08] ret1 == nil && mb.store.messageCap <= 0 ==> spec_loaded(mb) && spec_idxN(mb.indexPath) == old(spec_idxN(mb.indexPath)) &&
+//@      forall i int :: { vcSeqAt(ghost_idxIDs(mb.indexPath), i) } 0 <= i && i < spec_idxN(mb.indexPath) ==> vcSeqAt(ghost_idxIDs(mb.indexPath), i) == old(vcSeqAt(ghost_idxIDs(mb.indexPath), i))
+//@   loop 1: invariant mb.indexLoaded && spec_listOK(mb) && mb.store.messageCap > 0 && (spec_idxSafe(mb.indexPath) || !old(spec_idxSafe(mb.indexPath)))
+//@   loop 1: decreases len(mb.messages)
+//@   serves C08 C07 C11
+
+// AddMessage: the new record is the last entry of the index that is written; without a cap every
+// earlier entry keeps its place; with a cap the index never lists more than cap entries.
+//@ func (*Store).AddMessage
+//@   requires spec_storeOK(fs) && m != nil
+//@   modifies *
+//@   crashinv[indexReadable] spec_idxSafe(spec_indexPath(fs, m.Mailbox())) || !old(spec_idxSafe(spec_indexPath(fs, m.Mailbox())))
+//@   ensures[appendedLast C07 C10] err == nil ==> spec_idxN(spec_indexPath(fs, m.Mailbox())) >= 1 &&
+//@      vcSeqAt(ghost_idxIDs(spec_indexPath(fs, m.Mailbox())), spec_idxN(spec_indexPath(fs, m.Mailbox()))-1) == id
+//@   ensures[cap C08] err == nil && fs.messageCap > 0 ==> spec_idxN(spec_indexPath(fs, m.Mailbox())) <= fs.messageCap
+//@   ensures[noCapKeepsAll C07 C08 C10] err == nil && fs.messageCap <= 0 ==> spec_idxN(spec_indexPath(fs, m.Mailbox())) == old(spec_idxN(spec_indexPath(fs, m.Mailbox()))) + 1 &&
+//@      forall i int :: { vcSeqAt(ghost_idxIDs(spec_indexPath(fs, m.Mailbox())), i) } 0 <= i && i < old(spec_idxN(spec_indexPath(fs, m.Mailbox()))) ==>
+//@         vcSeqAt(ghost_idxIDs(spec_indexPath(fs, m.Mailbox())), i) == old(vcSeqAt(ghost_idxIDs(spec_indexPath(fs, m.Mailbox())), i))
+//@   serves C07 C08 C10 C11 C01
+
+// VisitMailboxes: f is applied to the list of every mailbox directory found.
+// (ASSUMED: the visitor is an arbitrary callback; the engine's havoc of the whole heap at a callback also
+// forgets the directory listings held in locals, so the loops are not verified.)
+//@ func (*Store).VisitMailboxes
+//@   trusted
+//@   requires spec_storeOK(fs)
+//@   modifies *
+//@   attr calls-arg=1
+
+//@ func readDirNames
+//@   trusted
+//@   ensures ret1 == nil ==> (vcFresh(ret0) || len(ret0) == 0) && forall i int :: { ret0[i] } 0 <= i && i < len(ret0) ==> len(ret0[i]) >= 6
